@@ -60,6 +60,8 @@ pub struct AppSpec {
     pub geom_truncate: usize,
     /// every third edge's stored linestring repeats one of its points (a zero-length segment, as digitised data has)
     pub geom_repeat: bool,
+    /// every fourth edge (e % 4 == 1) is stored as a linestring of a single point (a zero-length connector)
+    pub geom_single: bool,
     /// every fifth edge's stored linestring runs against the edge (digitised the other way round): renderings keep
     /// stored geometries as they are
     pub geom_reversed: bool,
@@ -103,6 +105,7 @@ impl AppSpec {
             geom_points: 2,
             geom_truncate: 0,
             geom_repeat: false,
+            geom_single: false,
             geom_reversed: false,
             uuid_blanks: false,
             matcher_classes: None,
@@ -240,6 +243,9 @@ fn frontier_inline(f: &FrontierCfg, dir: &Path, idx: &mut usize, files: &mut Vec
 pub fn edge_geometry(spec: &AppSpec, e: usize) -> Vec<(f32, f32)> {
     let net = &spec.world.net;
     let (a, b) = (net.coords[net.edges[e].src], net.coords[net.edges[e].dst]);
+    if spec.geom_single && e % 4 == 1 {
+        return vec![a];
+    }
     let n = spec.geom_points.max(2);
     let pts: Vec<(f32, f32)> = (0..n)
         .map(|i| {
